@@ -71,6 +71,12 @@ def gen_chain(rng):
         else: descs[i] = (b + z - 3, 4 + rng.choice([0, 10]), descs[i][2]); bad = 'guestmem'
     return regions, descs, bad
 
+ASYNC = {'T': 't', 'a': 'w', 'e': 'w', 'b': 'v', 'd': 'v', 'g': 'f', 'h': 'c'}
+def sync_of(op):
+    """async_read_to_at -> read_to_at, async_write / async_write_all -> write, async_write2/3 -> write_vectored,
+    async_write_from_at -> write_from_at, async_commit -> commit"""
+    return (ASYNC[op[0]],) + tuple(op[1:]) if op[0] in ASYNC else op
+
 class VSpec:
     """The flat-stream specification: every reader / writer is a list of remaining addresses (the
     concatenation of its segments) plus a consumed counter; memory is a dict over the pattern."""
@@ -89,6 +95,7 @@ class VSpec:
             self.mem[a] = v; self.dirty.add(a // PS); self.written.add(a)
     def apply(self, op):
         """-> expected observation dict {'res': tuple or list of alternatives, 'a','c','a2','c2'}"""
+        op = sync_of(op)            # the async variants have the contract of their synchronous counterparts
         k = op[0]; a2 = c2 = 0
         if k in 'rxotsX':
             h = self.rd[op[1]]; addrs = h[0]
@@ -165,15 +172,18 @@ def pick_n(rng, avail):
     return rng.choice([0, 1, 2, 3, 8, avail, max(avail - 1, 0), avail + 1, rng.randrange(avail + 1), rng.randrange(avail + 1),
                        rng.randrange(avail + 1), avail + rng.choice([2, 100, 5000])])
 
-def gen_vops(rng, spec, nops, reader_only=False, writer_bias=False):
+def gen_vops(rng, spec, nops, reader_only=False, writer_bias=False, use_async=True):
     """ops chosen against the evolving specification state so that they hit borders"""
     ops = []
     for _ in range(nops):
         side = 'r' if reader_only else ('w' if (writer_bias and rng.random() < 0.8) else rng.choice('rw'))
         if side == 'r':
             i = rng.randrange(len(spec.rd)); av = len(spec.rd[i][0])
-            k = rng.choice('rrxxotttsX')
-            if k == 'r': op = ('r', i, pick_n(rng, av))
+            k = rng.choice('rrxxotttsXTT' if use_async else 'rrxxotttsX')
+            if k == 'T':
+                kind = rng.choice('ffllle')
+                op = ('T', i, pick_n(rng, av), kind, rng.choice([0, 1, 2, 5, max(av - 1, 0), av, 5000]) if kind == 'l' else 0)
+            elif k == 'r': op = ('r', i, pick_n(rng, av))
             elif k == 'x': op = ('x', i, pick_n(rng, av))
             elif k == 'o': op = ('o', i, rng.choice([1, 2, 4, 8, 16]))
             elif k == 't':
@@ -187,8 +197,18 @@ def gen_vops(rng, spec, nops, reader_only=False, writer_bias=False):
             else: op = ('s', i, pick_n(rng, av))
         else:
             i = rng.randrange(len(spec.wr)); av = len(spec.wr[i][0])
-            k = rng.choice('wwwvvfffpcA' if not writer_bias else 'wwvfffppA')
-            if k == 'w': op = ('w', i, rdata(rng, min(pick_n(rng, av), 6000)))
+            k = rng.choice(('wwwvvfffpcA' if not writer_bias else 'wwvfffppA') + ('abdegggh' if use_async else ''))
+            if k in 'ae': op = (k, i, rdata(rng, min(pick_n(rng, av), 6000)))
+            elif k in 'bd':
+                tot = min(pick_n(rng, av), 6000)
+                op = (k, i, [rdata(rng, rng.choice([0, 0, 1, tot // 2, tot, rng.randrange(tot + 1)])) for _ in range(2 if k == 'b' else 3)])
+            elif k == 'g':
+                kind = rng.choice('fffllle')
+                count = min(pick_n(rng, av), 9000)
+                dl = rng.choice([count, count, count + 3, max(count - 1, 0), count // 2, 0, max(count - 4096, 0), max(count - 5000, 0)])
+                op = ('g', i, count, kind, rdata(rng, dl) if kind != 'e' else b'')
+            elif k == 'h': op = ('h', i)
+            elif k == 'w': op = ('w', i, rdata(rng, min(pick_n(rng, av), 6000)))
             elif k == 'v':
                 parts = []
                 tot = min(pick_n(rng, av), 6000)
@@ -213,15 +233,39 @@ def gen_vops(rng, spec, nops, reader_only=False, writer_bias=False):
 def op_text(op):
     k = op[0]
     if k in 'rxosp': return '%s,%d,%d' % (k, op[1], op[2])
-    if k in 'tX': return '%s,%d,%d,%s,%d' % (k, op[1], op[2], op[3], op[4])
-    if k == 'w': return 'w,%d,%s' % (op[1], op[2].hex())
-    if k == 'v': return 'v,%d,%s' % (op[1], '/'.join(d.hex() or '-' for d in op[2]))
-    if k in 'fA': return '%s,%d,%d,%s,%s' % (k, op[1], op[2], op[3], op[4].hex())
-    if k == 'c': return 'c,%d' % op[1] if len(op) == 2 else 'c,%d,%d' % (op[1], op[2])
+    if k in 'tXT': return '%s,%d,%d,%s,%d' % (k, op[1], op[2], op[3], op[4])
+    if k in 'wae': return '%s,%d,%s' % (k, op[1], op[2].hex())
+    if k in 'vbd': return '%s,%d,%s' % (k, op[1], '/'.join(d.hex() or '-' for d in op[2]))
+    if k in 'fAg': return '%s,%d,%d,%s,%s' % (k, op[1], op[2], op[3], op[4].hex())
+    if k in 'ch': return '%s,%d' % (k, op[1]) if len(op) == 2 else '%s,%d,%d' % (k, op[1], op[2])
     raise ValueError(op)
 
 def op_json(op):
     return [x.hex() if isinstance(x, bytes) else ([y.hex() for y in x] if isinstance(x, list) else x) for x in op]
+
+def aop_coq(op):
+    """an operation as a Coq [avop]: async operations by their own constructors, the others wrapped in ASync"""
+    k = op[0]; i = '%d%%nat' % op[1]
+    if k == 'T':
+        sink = 'None' if op[3] in 'eb' else ('(Some %d)' % (op[4] if op[3] == 'l' else op[2]))
+        return '(ARReadToAt %s %d %s)' % (i, op[2], sink)
+    if k == 'a': return '(AWrite %s %s)' % (i, dcoq(op[2]))
+    if k == 'e': return '(AWriteAll %s %s)' % (i, dcoq(op[2]))
+    if k == 'b': return '(AWrite2 %s %s %s)' % (i, dcoq(op[2][0]), dcoq(op[2][1]))
+    if k == 'd': return '(AWrite3 %s %s %s %s)' % (i, dcoq(op[2][0]), dcoq(op[2][1]), dcoq(op[2][2]))
+    if k == 'g': return '(AWriteFromAt %s %d %s)' % (i, op[2], 'None' if op[3] in 'eb' else '(Some %s)' % dcoq(op[4]))
+    if k == 'h': return '(ACommit %s)' % i
+    return '(ASync %s)' % op_coq(op)
+
+def afop_coq(op):
+    k = op[0]; i = '%d%%nat' % op[1]
+    if k == 'a': return '(FAWrite %s %s)' % (i, dcoq(op[2]))
+    if k == 'e': return '(FAWriteAll %s %s)' % (i, dcoq(op[2]))
+    if k == 'b': return '(FAWrite2 %s %s %s)' % (i, dcoq(op[2][0]), dcoq(op[2][1]))
+    if k == 'd': return '(FAWrite3 %s %s %s %s)' % (i, dcoq(op[2][0]), dcoq(op[2][1]), dcoq(op[2][2]))
+    if k == 'g': return '(FAWriteFromAt %s %d %s)' % (i, op[2], 'None' if op[3] in 'eb' else '(Some %s)' % dcoq(op[4]))
+    if k == 'h': return '(FACommit %s %s)' % (i, 'None' if op[2] < 0 else '(Some %d%%nat)' % op[2])
+    return '(FSync %s)' % fop_coq(op)
 
 def op_coq(op):
     k = op[0]; i = '%d%%nat' % op[1]
@@ -296,17 +340,17 @@ def vcase_coq(c, out, with_dirty=True):
     universe = [p for b, z in regs for p in range(b // PS, (b + z) // PS)]
     init = out['init']
     exp_init = '(HOk 0 0 0)' if init == 'ok' else '(HErr %d)' % ERRCODE[ERRS.get(init.split(':')[-1], 'EBadIndex')]
-    return '(check_vd %d [%s] [%s] [%s] [%s] %s [%s] [%s] [%s] [%s])' % (
+    return '(check_avd %d [%s] [%s] [%s] [%s] %s [%s] [%s] [%s] [%s])' % (
         c['seed'], '; '.join('(%d, %d)' % r for r in regs),
         '; '.join('(mkdesc %d %d %s)' % (a, l, 'true' if k == 'w' else 'false') for a, l, k in c['descs']),
         '; '.join(str(p) for p in sorted(c.get('dirty0', ()))),
-        '; '.join(op_coq(o) for o in c['ops']), exp_init,
+        '; '.join(aop_coq(o) for o in c['ops']), exp_init,
         '; '.join(obs_coq(o) for o in out['obs']),
         win_coq(ws),
         '; '.join(str(p) for p in out['dirty']) if with_dirty else '', '; '.join(str(p) for p in universe) if with_dirty else '')
 
 COQ_HEADER = ('From Coq Require Import List String NArith Bool.\n'
-              'From FB Require Import Lib.Hex Gen.BytesDelegation Model.Transport.\n'
+              'From FB Require Import Lib.Hex Gen.BytesDelegation Gen.AsyncTransport Model.Transport.\n'
               'Import ListNotations.\nLocal Open Scope N_scope.\n')
 
 def gen_vcases(rng, n, writer_bias=False, maxops=25, dirty_init=False):
@@ -365,7 +409,7 @@ def eval_vcase(c, out):
     for si, (op, got) in enumerate(zip(c['ops'], out['obs'][1:]), 1):
         e = spec.apply(op)
         if not res_matches(e['res'], got[0]):
-            kind = {'r': 'read', 'x': 'read_exact', 'o': 'read_obj', 't': 'read_to', 'X': 'read_exact_to', 'A': 'write_all_from', 's': 'reader split_at', 'w': 'write',
+            kind = {'r': 'read', 'x': 'read_exact', 'o': 'read_obj', 't': 'read_to', 'X': 'read_exact_to', 'A': 'write_all_from', 'T': 'async_read_to_at', 'a': 'async_write', 'b': 'async_write2', 'd': 'async_write3', 'e': 'async_write_all', 'g': 'async_write_from_at', 'h': 'async_commit', 's': 'reader split_at', 'w': 'write',
                     'v': 'write_vectored', 'f': 'write_from', 'p': 'writer split_at', 'c': 'commit'}[op[0]]
             p04.append({'what': 'virtio %s returned %s, the byte-stream specification gives %s' % (kind, got[0][:2], (e['res'] if isinstance(e['res'], list) else e['res'][:2])),
                         'step': si, 'op': op_json(op), 'got': got[0], 'sig': {'transport': 'virtio', 'op': kind}})
@@ -408,12 +452,19 @@ class FSpec:
         self.seed = seed; self.cap = cap
         self.ws = [{'buf': False, 'lo': 0, 'hi': cap, 'content': b''}]
         self.mem = {}; self.off = False
+        self.async_over = False      # an async_write_from_at went to a buffered writer that already held bytes
     def place(self, w, data):
         base = FBASE + MARGIN + w['lo'] + len(w['content'])
         for i, v in enumerate(data): self.mem[base + i] = v
     def apply(self, op):
-        k = op[0]; w = self.ws[op[1]]; a2 = c2 = 0; pk = []
+        w = self.ws[op[1]]; a2 = c2 = 0; pk = []
         room = w['hi'] - w['lo'] - len(w['content'])
+        if op[0] == 'e' and not op[2]:           # async_write_all(&[]): the loop body never runs
+            return {'res': ('ok', 0, b''), 'a': room, 'c': len(w['content']), 'a2': 0, 'c2': 0, 'pk': []}
+        if op[0] == 'g' and w['buf'] and w['content'] and op[3] not in 'eb' and min(op[2], len(op[4])) > 0 and op[2] <= room:
+            self.async_over = True
+        if op[0] in 'bd': op = ('v', op[1], [x for x in op[2]] or [b''])
+        op = sync_of(op); k = op[0]
         if k in 'wvf' and not w['buf'] and w['content']:
             self.off = True
             return {'res': 'panic', 'a': room, 'c': len(w['content']), 'a2': 0, 'c2': 0, 'pk': []}
@@ -458,9 +509,16 @@ def gen_fcase(rng, protocol_only=False):
     for _ in range(rng.randrange(0, 14)):
         i = rng.randrange(len(spec.ws)); w = spec.ws[i]
         room = w['hi'] - w['lo'] - len(w['content'])
-        k = rng.choice('wwvffppcc')
-        if protocol_only and not w['buf'] and w['content'] and k != 'c': k = 'c'
-        if k == 'w': op = ('w', i, rdata(rng, min(pick_n(rng, room), 5000)))
+        k = rng.choice('wwvffppcc' + 'abdegggghh')
+        if protocol_only and not w['buf'] and w['content'] and k not in 'ch': k = rng.choice('ch')
+        if k in 'wae': op = (k, i, rdata(rng, min(pick_n(rng, room), 5000)))
+        elif k in 'bd':
+            tot = min(pick_n(rng, room), 5000)
+            op = (k, i, [rdata(rng, rng.choice([0, 0, 1, tot // 2, tot])) for _ in range(2 if k == 'b' else 3)])
+        elif k == 'g':
+            kind = rng.choice('fffllle')
+            count = min(pick_n(rng, room), 5000)
+            op = ('g', i, count, kind, rdata(rng, rng.choice([count, count + 3, max(count - 1, 0), count // 2, 0])) if kind != 'e' else b'')
         elif k == 'v':
             tot = min(pick_n(rng, room), 5000)
             op = ('v', i, [rdata(rng, rng.choice([0, 0, 1, tot // 2, tot])) for _ in range(rng.choice([0, 1, 2, 3]))])
@@ -471,7 +529,7 @@ def gen_fcase(rng, protocol_only=False):
         elif k == 'p': op = ('p', i, pick_n(rng, w['hi'] - w['lo']))
         else:
             others = [j for j in range(len(spec.ws)) if j != i]
-            op = ('c', i, rng.choice(others + [-1]) if others else -1)
+            op = (k if k in 'ch' else 'c', i, rng.choice(others + [-1]) if others else -1)
         ops.append(op); spec.apply(op)
     return {'seed': seed, 'cap': cap, 'mode': 'writer', 'ops': ops}
 
@@ -490,10 +548,10 @@ def fcase_coq(c, out):
     ws, _ = windows(c['seed'], [(base, c['cap'], FBASE, FBASE + c['cap'] + 2 * MARGIN)], out['mem'], None)
     wtxt = win_coq(ws)
     if c['mode'] == 'reader':
-        return '(check_fr %d %d %d [%s] [%s] [%s])' % (c['seed'], base, c['cap'], '; '.join(op_coq(o) for o in c['ops']),
+        return '(check_afr %d %d %d [%s] [%s] [%s])' % (c['seed'], base, c['cap'], '; '.join(aop_coq(o) for o in c['ops']),
                                                        '; '.join(obs_coq(o) for o in out['obs']), wtxt)
     pk = [p for o in out['obs'] for p in o[5]]
-    return '(check_f %d %d %d [%s] [%s] [%s] [%s])' % (c['seed'], base, c['cap'], '; '.join(fop_coq(o) for o in c['ops']),
+    return '(check_af async_wfrom_at_len %d %d %d [%s] [%s] [%s] [%s])' % (c['seed'], base, c['cap'], '; '.join(afop_coq(o) for o in c['ops']),
                                                         '; '.join(obs_coq(o) for o in out['obs']),
                                                         '; '.join('(%d, %d)' % (len(bytes.fromhex(p)), hashN(bytes.fromhex(p))) for p in pk), wtxt)
 
@@ -515,7 +573,8 @@ def eval_fcase(c, out):
     for si, (op, got) in enumerate(zip(c['ops'], out['obs'][1:]), 1):
         e = spec.apply(op)
         if spec.off: break
-        kind = {'w': 'write', 'v': 'write_vectored', 'f': 'write_from', 'p': 'split_at', 'c': 'commit'}[op[0]]
+        kind = {'w': 'write', 'v': 'write_vectored', 'f': 'write_from', 'p': 'split_at', 'c': 'commit', 'a': 'async_write', 'b': 'async_write2', 'd': 'async_write3',
+                'e': 'async_write_all', 'g': 'async_write_from_at', 'h': 'async_commit'}[op[0]]
         if not res_matches(e['res'], got[0]):
             probs.append({'what': 'fusedev %s returned %s, contract gives %s' % (kind, got[0][:2], e['res'] if isinstance(e['res'], str) else e['res'][:2]),
                           'step': si, 'op': op_json(op), 'sig': {'transport': 'fusedev', 'op': kind}}); break
@@ -535,6 +594,11 @@ def eval_fcase(c, out):
             lo, hi = FBASE + MARGIN, FBASE + MARGIN + c['cap']
             probs.append({'what': 'fusedev reply buffer differs from the bytes written (%d addresses, %d outside the buffer)' % (len(bad), sum(1 for a in bad if not lo <= a < hi)),
                           'first': bad[:5], 'sig': {'transport': 'fusedev', 'op': 'memory'}})
+    if probs and spec.async_over:
+        # the deviation follows an async_write_from_at into a buffered writer that already held bytes: name it
+        probs = [{'what': 'fusedev async_write_from_at on a buffered writer that already holds bytes puts the file data at the start of the buffer: '
+                          'earlier bytes are overwritten and stale bytes are committed (%s)' % probs[0]['what'][:160],
+                  'step': probs[0].get('step'), 'sig': {'transport': 'fusedev', 'op': 'async_write_from_at'}}]
     shape = (c['cap'], tuple(sorted(set(o[0] for o in c['ops']))))
     return probs, shape, not spec.off
 
@@ -783,3 +847,42 @@ def gen_dirty_case(rng):
     else:
         d0 = {'none': [], 'all': allp, 'alt': allp[rng.randrange(2)::2], 'random': [p for p in allp if rng.random() < 0.4]}[mode]
     return {'seed': seed, 'regions': regions, 'descs': descs, 'bad': None, 'ops': ops, 'dirty0': d0, 'pattern': pattern, 'dirty_mode': mode}
+
+def gen_short_case(rng):
+    """file-to-guest transfers whose source ends early (by >= 1 page, by < 1 page, empty), through write_from,
+    write_from_at, write_all_from and async_write_from_at, into page-aligned and unaligned segments, on initial
+    dirty logs that are empty / alternating / random: the pages behind the bytes actually read must stay clean"""
+    regions = rng.choice(LAYOUTS); (ab, az) = regions[0]; (bb, bz) = regions[1]
+    aligned = rng.random() < 0.5
+    start = ab + (rng.choice([0, PS]) if aligned else rng.choice([1, 100, 2000, 4000, 4095]))
+    npg = rng.choice([2, 3, 4])
+    ln = npg * PS if aligned else npg * PS - rng.choice([1, 100, 3000])
+    descs = [(start, ln, 'w')]
+    if rng.random() < 0.4: descs.append((bb + rng.choice([0, 4090]), rng.choice([16, 4097]), 'w'))
+    if rng.random() < 0.3: descs.insert(0, (bb + 8192, 40, 'r'))
+    seed = rng.randrange(256); ops = []
+    pre = rng.choice([0, 0, 16, 100])
+    if pre: ops.append((rng.choice('wa'), 0, rdata(rng, pre)))
+    if rng.random() < 0.3: ops += [('p', 0, pre and 0 or 16)]
+    tgt = len([o for o in ops if o[0] == 'p'])           # write into the newest writer
+    room = sum(d[1] for d in descs if d[2] == 'w') - pre - (16 if tgt else 0)
+    count = max(1, min(room, rng.choice([ln - pre, ln - pre - 1, 2 * PS + 5, room, PS + 1])))
+    short = rng.choice(['page+', 'page+', 'sub', 'sub', 'empty', 'none'])
+    dl = {'page+': max(count - rng.choice([PS, PS + 1, 2 * PS]), 0), 'sub': max(count - rng.choice([1, 100, PS - 1]), 0), 'empty': 0, 'none': count}[short]
+    k = rng.choice('ggggffA')
+    kind = rng.choice('fl') if k != 'f' else rng.choice('fal')
+    ops.append((k, tgt, count, kind, rdata(rng, dl)))
+    if rng.random() < 0.5 and k != 'A':                  # a second transfer right behind the first
+        ops.append((rng.choice('gf'), tgt, min(100, max(room - count, 0)), 'l', rdata(rng, rng.choice([0, 50, 100]))))
+    allp = [p for b, z in regions for p in range(b // PS, (b + z) // PS)]
+    mode = rng.choice(['none', 'none', 'alt', 'random'])
+    d0 = {'none': [], 'alt': allp[rng.randrange(2)::2], 'random': [p for p in allp if rng.random() < 0.3]}[mode]
+    return {'seed': seed, 'regions': regions, 'descs': descs, 'bad': None, 'ops': ops, 'dirty0': d0, 'pattern': 'short-' + short, 'dirty_mode': mode}
+
+def gen_fcase_over(rng):
+    """async_write_from_at into a split-off (buffered) writer that already holds bytes, then commit"""
+    seed = rng.randrange(256); cap = rng.choice([32, 100, 4097]); h = rng.choice([0, 8, 16])
+    pre = rdata(rng, rng.choice([1, 3, 16])); n = rng.choice([1, 4, 10])
+    ops = [('p', 0, h), (rng.choice('wa'), 1, pre), ('g', 1, n + rng.choice([0, 2]), rng.choice('fl'), rdata(rng, n)),
+           (rng.choice('wa'), 0, rdata(rng, h)), (rng.choice('ch'), 0, 1)]
+    return {'seed': seed, 'cap': cap, 'mode': 'writer', 'ops': ops}
